@@ -71,6 +71,9 @@ def correspondence(ctx):
 def check_liouville(ctx, case):
     U, V = np.asarray(case['U']), np.asarray(case['V'])
     C = ff.Basis(np.asarray(case['C']), traceless=case.get('traceless'), btype=case.get('btype'))
+    if case.get('perm') is not None:
+        # a basis derived from that Basis object by indexing (numpy machinery keeps the attributes)
+        C = C[np.asarray(case['perm'], dtype=int)]
     d = U.shape[-1]
     probs = []
     L = so.liouville_representation(U, C)
@@ -165,15 +168,18 @@ def search(ctx, deep=False):
     n = {('quick', False): 30, ('quick', True): 200, ('thorough', False): 400,
          ('thorough', True): 1200}[(ctx.tier, deep)]
     for i in range(n):
-        d = int(rng.choice([2, 3, 4])) if (i % 15 or ctx.tier == 'quick' and not deep and i > 0) \
-            else 13
+        d = int(rng.choice([2, 3, 4])) if i % 15 else 13
         if d == 13:
             C = ff.Basis.ggm(13)
             cs = {'C': np.array(C), 'traceless': True, 'btype': 'GGM'}
+            if (i // 15) % 2 == 1:
+                cs['perm'] = np.concatenate(([0], 1 + rng.permutation(168)))
         else:
             bs = bases(rng, d)
             C = bs[int(rng.integers(0, len(bs)))]
             cs = {'C': np.array(C), 'traceless': bool(C.istraceless), 'btype': C.btype}
+            if rng.random() < 0.3:
+                cs['perm'] = rng.permutation(len(C))
         check_liouville(ctx, dict(cs, U=gens.rand_unitary(rng, d), V=gens.rand_unitary(rng, d)))
         if i % 3 == 0:
             dd = int(rng.choice([2, 3, 4]))
